@@ -49,6 +49,7 @@ func init() {
 			{Name: "CIGAR-SCAN", What: "sam.ParseCigar returns when its scan for the operation letter runs off the end of the text (a length without letter)", Floor: 1, Run: ruleCigarScan},
 			{Name: "NIL-AUX", What: "no method is called on the possibly nil result of AuxFields.Get without a nil test, also through helpers it is handed to", Floor: 1, Run: ruleNilAux},
 			{Name: "IDX-SIGN", What: "in the index packages an index taken from the record (the result of an interface call such as RefID()) is shown non-negative before it is used; and in the exported methods with an ok or error result an index or slice bound computed from an integer parameter is shown in range (ReferenceStats(id), Chunks with a negative start)", Floor: 6, Run: ruleIdxSign},
+			{Name: "AUX-ARRAY-MIN", What: "bam.parseAux demands no more than the eight header bytes of a B array before it has read the count (shared with C05): a value the writer produced is decoded", Floor: 1, Run: ruleAuxArrayMin},
 			{Name: "NIL-RECV", What: "every exported reporting method of *sam.Reference tests the receiver for nil before it reads a field: the readers return a nil Reference for a read without one (added for a defect of the unchanged tree, repaired ba68e79: String, Tags, Get)", Floor: 8, Run: ruleNilRecv},
 			{Name: "NAME-STORE", What: "a name-table key (Reference.name, ReadGroup.name, Program.uid) is written only together with the table or into a fresh object: a stale entry makes the next AddReference index the list out of range (shared with C07)", Floor: 6, Run: ruleNameStore},
 			{Name: "REG2BINS-RANGE", What: "csi.reg2bins and internal.OverlappingBinsFor show beg ≥ 0, end beyond beg and end ≤ a power of two before they shift them into uint32 bin numbers and walk them with an unsigned counter: bounded time for every query, also one made from the positions of a decoded record (shared with C04)", Floor: 6, Run: ruleReg2binsRange},
